@@ -543,6 +543,10 @@ def quick_families():
     yield family("AR", ["E", "Z", "A", "L"], ARR, 1, lev, ["top", "loop"])
     yield family("AR", ["E", "Z", "A", "L"], ["el", "loop", "whole"], 2, lev,
                  ["top"], minlen=2, actual_filter=only(("a(2:m)", "b", "w%d")))
+    yield family("AR", ["E", "Z", "A", "L"], ARR, 1, lev, ["if", "twice"],
+                 actual_filter=only(("a(2:m)", "b", "w%d")))
+    yield family("SC", ["SS"], ["inc", "set", "cpy"], 2, lev, ["loop"],
+                 actual_filter=only(("k", "a(i)"), ("k",)))
     yield family("AS", ["ES", "ZS", "AS", "LS"], ARRS, 1, lev, ["top"],
                  actual_filter=only(None, few))
     yield family("AS", ["ES", "ZS", "AS", "LS"], ARRS, 1, lev, ["loop"],
